@@ -14,6 +14,7 @@ FAMILY_ARGS = {
     'buffer': {'quick': ['-seed', '{seed}', '-n', '3000', '-exhaustive', '5', '-maxlen', '40'],
                'thorough': ['-seed', '{seed}', '-n', '60000', '-exhaustive', '7', '-maxlen', '300']},
     'setters': {'quick': [], 'thorough': []},
+    'leasemgr': {'quick': [], 'thorough': []},
     'hist': {'quick': ['-seed', '{seed}', '-n', '700'],
              'thorough': ['-seed', '{seed}', '-n', '12000']},
     'cycle': {'quick': ['-seed', '{seed}', '-n', '2000', '-exhaustive', '3', '-maxops', '40'],
@@ -129,6 +130,17 @@ PROPS = {
         'rule': _hist_rule + 'non-trivial = at least one audit event was observed',
         'explanation': 'healthy audit leaves demand and slots alone (under C03 invariant, no enqueue in flight = finding F9), stale figure repaired; audit ticks urgent',
         'assumptions': _hist_assumptions,
+    },
+    'C18': {
+        'families': ['leasemgr'], 'fields': {'leasemgr': None},
+        'nontrivial': r'code=(?!none)',
+        'rule': 'leasemgr family (fault enumeration, exhaustive): every service code in the SDK source (module cache, v0.13.0) plus an unknown code, a non-storage error, '
+                'a cancellation and success, injected at container create, lease acquire and every position of 1..4-blob provisioning runs, in both generations, through '
+                'in-package fakes of the container/blob interfaces; plus one loopback run per generation of the REAL azblob client against a local HTTP server '
+                '(blob names, If-None-Match, lease id, duration, action); non-trivial = an error was injected; distinct = distinct (generation, site, code, n, position)',
+        'explanation': 'complete case analysis over every error value + list induction over provisioning runs of any length; exhaustive fault enumeration ties it to both lease managers',
+        'assumptions': ['the azblob SDK, its HTTP pipeline and Azure Blob semantics are modelled (fakes / loopback server), not verified',
+                        'the SDK code list is read from the module cache by both the extractor and the harness'],
     },
     'C14': {
         'families': ['admit', 'hist'],
